@@ -199,3 +199,22 @@ def run(F, rep):
         foreign = [x for x in extra if idvar is None or idvar not in x[0]]
         rep.check(idvar is not None and not foreign, 'C11.E2', 'Model::clone|%s' % c['fn'], m.where(c),
                   '%s is only reached under %s, which does not concern the id being copied: the id is dropped although it is set on the original' % (c['fn'], foreign), 'depends only on `%s`' % idvar)
+
+    # ------------------------------------------------------------------ E3: every recorded equivalence is re-created
+    rep.rule('C11.E3', 'the helpers through which Model::clone re-creates the recorded variable equivalences (applyEquivalenceMapToModel -> makeEquivalence) call addEquivalence for every recorded pair: '
+                       'the call depends on null tests only (a test such as "already connected, possibly indirectly" drops the pairs that close a cycle of connections)')
+    from facts import null_test as _nt
+    from engines import ff as _ff
+    n_e3 = 0
+    mc = clone_fn(F, 'Model')
+    for k in F.reach([mc.key]):
+        g = F.funcs[k]
+        if not g.file.endswith('/utilities.cpp'):
+            continue
+        for c in g.walk():
+            if c.get('k') == 'Call' and c.get('fn') == 'addEquivalence':
+                n_e3 += 1
+                extra = [(render(cn), tr) for cn, tr in (_ff(g).conds_at(c) or []) if _nt(cn) is None]
+                rep.check(not extra, 'C11.E3', '%s|%s' % (g.short, render(c)[:40]), g.where(c), '%s re-creates an equivalence only when %s' % (g.short, ' and '.join('`%s` is %s' % e for e in extra)[:160]), 'for every recorded pair')
+    if n_e3 < 1:
+        raise AnalysisBroken('C11.E3: addEquivalence vanished from the helpers of Model::clone')
